@@ -8,6 +8,7 @@ from .. import refmodel as R
 from .. import reflect as RF
 from .. import spec as S
 from . import common as C
+from . import c04
 
 MONITORS = ("math", "route", "rw")
 LEVEL = "exploration"
@@ -29,6 +30,10 @@ ASSUMPTIONS = [
 
 
 def make_case(rng, tier):
+    if rng.random() < 0.05:
+        c = c04.make_extreme(rng)
+        if c is not None:
+            return c
     r = rng.random()
     hi = 18 if tier == "quick" else 30
     if r < 0.3:
@@ -75,6 +80,10 @@ def symbolic_specs(s, var, mode):
 
 
 def check_case(ctx, case):
+    if case.get("kind") == "extreme_product":
+        # every late (numeric) route must agree with the exact partial where the plain product rule is range-safe
+        return c04.check_extreme(ctx, case, route_names=("partial_late", "partial_late_name", "diff_late_component_at", "diff_late_component_then_at",
+                                                          "located", "located_name", "diff_late_at_component"))
     import smoothmath as sm
     import smoothmath.expression as E
     s = S.from_json(case["spec"])
